@@ -121,6 +121,7 @@ func buildSource(c *c14ref.Chain) (string, *c14ref.Lines, int) {
 	s.add(`class MyTypeErr extends TypeError {}`)
 	s.add(`function rec() { rec(); }`)
 	s.add(`function mkIter(i, f) { return {[Symbol.iterator]: function() { var n = 0; return {next: function() { if (n++ > 0) { return {done: true}; } return {value: f ? f() : 0, done: false}; }, return: function() { log("ir", i); return {}; }}; }}; }`)
+	s.add(`function mkIterR(i, f, val) { return {[Symbol.iterator]: function() { return {next: function() { return {value: val, done: false}; }, return: function() { log("ir", i); f(); return {}; }}; }}; }`)
 	s.add(`function* gen1(f) { yield f(); }`)
 	s.add(`function fu() {`)
 	follow := s.add(`  throw 77;`)
@@ -191,6 +192,16 @@ func buildSource(c *c14ref.Chain) (string, *c14ref.Lines, int) {
 					stmt = fmt.Sprintf("var [d] = mkIter(%d, f%d);", i, nx)
 				case "spread":
 					stmt = fmt.Sprintf("[...mkIter(%d, f%d)];", i, nx)
+				case "frommap":
+					stmt = fmt.Sprintf("Array.from(mkIter(%d, null), f%d);", i, nx)
+				case "closeforof":
+					stmt = fmt.Sprintf("for (var v of mkIterR(%d, f%d, 0)) { throw reg(%d, %d); }", i, nx, 100+i, 7100+i)
+				case "closemap":
+					stmt = fmt.Sprintf("new Map(mkIterR(%d, f%d, 0));", i, nx)
+				case "closefrom":
+					stmt = fmt.Sprintf("Array.from(mkIterR(%d, f%d, 0), function() { throw reg(%d, %d); });", i, nx, 100+i, 7100+i)
+				case "closedestruct":
+					stmt = fmt.Sprintf("var [{dx}] = mkIterR(%d, f%d, null);", i, nx)
 				case "gen":
 					stmt = fmt.Sprintf("gen1(f%d).next();", nx)
 				case "eval":
